@@ -1,0 +1,269 @@
+//go:build verif
+
+package encoding
+
+// C14, hash consistency. Contracts for the gcv verifier (/verif).
+//
+// The hash function (xxhash behind hash.Hash64, handed out by a sync.Pool) is an external dependency. It is modelled as a
+// streaming hash over BYTE CONTENTS: one ghost state GhostHashCt; Reset puts it into SpecHashInit(); Write(p) absorbs the bytes
+// p[0], p[1], ... one at a time through the uninterpreted step function SpecHashAbs1; Sum64 reads SpecHash64 of the state
+// (deps/hash.contract, A-DEP). Nothing is assumed about SpecHashInit / SpecHashAbs1 / SpecHash64 beyond being functions,
+// i.e. the digest is a deterministic function of the sequence of bytes written since the last Reset and a Write of a
+// buffer equals the Writes of its bytes (the documented meaning of hash.Hash: "Write adds more data to the running hash").
+// Limit of the model, as for GhostHashSt: one live hasher at a time (true for every function below).
+
+var GhostHashCt int
+
+// SpecHashAbs1: state of the hasher after absorbing one more byte (uninterpreted).
+func SpecHashAbs1(st int, b byte) int { panic("ghost") }
+
+// specHashFold: state after absorbing p[0..k) in order, starting in st.
+func specHashFold(st int, p []byte, k int) int {
+	if k <= 0 {
+		return st
+	}
+	return SpecHashAbs1(specHashFold(st, p, k-1), p[k-1])
+}
+
+// specHashU64: state after absorbing the 8 bytes of x, most significant first (x1..x7 are x shifted right by 1..7 bytes).
+func specHashU64(st int, x uint64) int {
+	x1 := x >> 8
+	x2 := x1 >> 8
+	x3 := x2 >> 8
+	x4 := x3 >> 8
+	x5 := x4 >> 8
+	x6 := x5 >> 8
+	x7 := x6 >> 8
+	return SpecHashAbs1(SpecHashAbs1(SpecHashAbs1(SpecHashAbs1(SpecHashAbs1(SpecHashAbs1(SpecHashAbs1(SpecHashAbs1(st,
+		byte(x7)), byte(x6)), byte(x5)), byte(x4)), byte(x3)), byte(x2)), byte(x1)), byte(x))
+}
+
+// specHashComp: what a component contributes to a running hash: its type, then its value length (both as 64-bit
+// big-endian numbers), then its value bytes (type, length, value: the length delimits the value, so the absorbed byte
+// string determines the component sequence). A function of type and value only.
+func specHashComp(st int, c Component) int {
+	return specHashFold(specHashU64(specHashU64(st, uint64(c.Typ)), uint64(len(c.Val))), c.Val, len(c.Val))
+}
+
+// specHashName: hasher state after the first k components of n, starting from the initial state.
+func specHashName(n Name, k int) int {
+	if k <= 0 {
+		return SpecHashInit()
+	}
+	return specHashComp(specHashName(n, k-1), n[k-1])
+}
+
+// specAbs8: the eight single-byte steps written out.
+func specAbs8(st int, b0, b1, b2, b3, b4, b5, b6, b7 byte) int {
+	return SpecHashAbs1(SpecHashAbs1(SpecHashAbs1(SpecHashAbs1(SpecHashAbs1(SpecHashAbs1(SpecHashAbs1(SpecHashAbs1(st, b0), b1), b2), b3), b4), b5), b6), b7)
+}
+
+// Absorbing a buffer of eight bytes is eight single-byte steps (eight unfoldings of specHashFold).
+//
+//@ func lemmaHashFold8
+//@   requires len(p) >= 8
+//@   ensures specHashFold(st, p, 8) == specAbs8(st, p[0], p[1], p[2], p[3], p[4], p[5], p[6], p[7])
+func lemmaHashFold8(st int, p []byte) {
+	lemmaHashFoldStep(st, p, 1)
+	lemmaHashFoldStep(st, p, 2)
+	lemmaHashFoldStep(st, p, 3)
+	lemmaHashFoldStep(st, p, 4)
+	lemmaHashFoldStep(st, p, 5)
+	lemmaHashFoldStep(st, p, 6)
+	lemmaHashFoldStep(st, p, 7)
+	lemmaHashFoldStep(st, p, 8)
+}
+
+//@ func lemmaHashFoldStep
+//@   requires 1 <= k && k <= len(p)
+//@   ensures specHashFold(st, p, k) == SpecHashAbs1(specHashFold(st, p, k-1), p[k-1])
+//@   ensures k == 1 ==> specHashFold(st, p, 0) == st
+func lemmaHashFoldStep(st int, p []byte, k int) {}
+
+// The big-endian bytes of a 64-bit number are its successive right shifts by one byte, truncated (uniqueness of the
+// base-256 representation).
+//
+//@ func lemmaBE8Bytes
+//@   requires len(b) >= 8 && specBE8(b, 0) == x
+//@   ensures b[7] == byte(x) && b[6] == byte(x>>8) && b[5] == byte(x>>8>>8) && b[4] == byte(x>>8>>8>>8)
+//@   ensures b[3] == byte(x>>8>>8>>8>>8) && b[2] == byte(x>>8>>8>>8>>8>>8) && b[1] == byte(x>>8>>8>>8>>8>>8>>8) && b[0] == byte(x>>8>>8>>8>>8>>8>>8>>8)
+func lemmaBE8Bytes(x uint64, b []byte) {
+	y1 := uint64(b[0])
+	y2 := y1*256 + uint64(b[1])
+	y3 := y2*256 + uint64(b[2])
+	y4 := y3*256 + uint64(b[3])
+	y5 := y4*256 + uint64(b[4])
+	y6 := y5*256 + uint64(b[5])
+	y7 := y6*256 + uint64(b[6])
+	lemmaShiftByte(x, y7, b[7])
+	lemmaShiftByte(y7, y6, b[6])
+	lemmaShiftByte(y6, y5, b[5])
+	lemmaShiftByte(y5, y4, b[4])
+	lemmaShiftByte(y4, y3, b[3])
+	lemmaShiftByte(y3, y2, b[2])
+	lemmaShiftByte(y2, y1, b[1])
+	lemmaShiftByte(y1, 0, b[0])
+}
+
+// One digit of the base-256 representation: if x = 256*y + r with r a byte, then y is x shifted right by one byte and r is
+// the low byte of x.
+//
+//@ func lemmaShiftByte
+//@   requires y <= 72057594037927935 && x == y*256+uint64(r)
+//@   ensures x>>8 == y && byte(x) == r
+func lemmaShiftByte(x uint64, y uint64, r byte) {}
+
+// Absorbing a buffer that holds the 8 big-endian bytes of x is absorbing x (the only place where specHashU64 is unfolded).
+//
+//@ func lemmaHashU64Buf
+//@   requires len(b) >= 8 && specBE8(b, 0) == x
+//@   ensures specHashFold(st, b, 8) == specHashU64(st, x)
+func lemmaHashU64Buf(st int, x uint64, b []byte) {
+	lemmaBE8Bytes(x, b)
+	lemmaHashFold8(st, b)
+}
+
+// A-POOL (environment invariant of the package-private pool hashPool, which only this package can reach): every value it
+// hands out is a non-nil *xxhash.xxh (its New function returns xxhash.New(), and the only values ever Put are values
+// obtained from Get). Assumed, listed in the evidence.
+//
+//@ func (*sync.Pool).Get
+//@   trusted
+//@   ensures result != nil && typeIs(result, "*xxhash.xxh")
+
+//@ func (*sync.Pool).Put
+//@   trusted
+
+//@ func (Component).HashInto
+//@   requires h != nil
+//@   opaque specHashU64
+//@   assert before h.Write@1 uses lemmaHashU64Buf(GhostHashCt, uint64(c.Typ), tbuf) specHashFold(GhostHashCt, tbuf, 8) == specHashU64(GhostHashCt, uint64(c.Typ))
+//@   assert before h.Write@2 uses lemmaHashU64Buf(GhostHashCt, uint64(len(c.Val)), tbuf) specHashFold(GhostHashCt, tbuf, 8) == specHashU64(GhostHashCt, uint64(len(c.Val)))
+//@   ensures GhostHashCt == specHashComp(old(GhostHashCt), c)
+
+// ---------------------------------------------------------------------------------------
+// View "content": what Hash / PrefixHash / Component.Hash compute, proved from their bodies over the content model.
+// Their primary contracts (zz_verif_contracts.go) stay the trusted A-HASH model the hash-keyed tables are verified
+// against (the hash of a name as an uninterpreted function that identifies the name); the view is a second, PROVED
+// specification of the same functions, used only by the lemmas of this file (props/C14.json: ctx "view:content").
+// ---------------------------------------------------------------------------------------
+
+//@ func (Component).Hash
+//@   view content
+//@   opaque specHashU64
+//@   ensures result == SpecHash64(specHashComp(SpecHashInit(), c))
+
+//@ func (Name).Hash
+//@   view content
+//@   opaque specHashU64
+//@   ensures result == SpecHash64(specHashName(n, len(n)))
+//@   loop 1 invariant GhostHashCt == specHashName(n, rangeindex+1)
+
+//@ func (Name).PrefixHash
+//@   view content
+//@   opaque specHashU64
+//@   ensures len(result) == len(n)+1 && fresh(result)
+//@   ensures forallIn(0, len(n)+1, func(k int) bool { return result[k] == SpecHash64(specHashName(n, k)) })
+//@   loop 1 invariant GhostHashCt == specHashName(n, rangeindex+1) && len(ret) == len(n)+1
+//@   loop 1 invariant forallIn(0, rangeindex+2, func(k int) bool { return ret[k] == SpecHash64(specHashName(n, k)) })
+
+// ---------------------------------------------------------------------------------------
+// Lemmas over the spec functions: the absorbed state depends on byte CONTENTS only (induction on the number of bytes /
+// components), hence equal components and equal names (specEqComp / specEqName of zz_verif_order.go) hash equally.
+// ---------------------------------------------------------------------------------------
+
+//@ func lemmaHashFoldEq
+//@   requires 0 <= k && k <= len(p) && k <= len(q)
+//@   requires forallIn(0, k, func(i int) bool { return p[i] == q[i] })
+//@   decreases k
+//@   ensures specHashFold(st, p, k) == specHashFold(st, q, k)
+func lemmaHashFoldEq(st int, p, q []byte, k int) {
+	if k <= 0 {
+		return
+	}
+	lemmaHashFoldEq(st, p, q, k-1)
+}
+
+// C14 (c): what a component contributes to a hash is a function of its type and value bytes. (st2 names the state after
+// the type and the length have been absorbed: ghost Go code cannot call a spec function, so the caller passes it and the precondition ties it.)
+//
+//@ func lemmaHashCompEq
+//@   opaque specHashU64
+//@   requires specEqComp(a, b) && st2 == specHashU64(specHashU64(st, uint64(a.Typ)), uint64(len(a.Val)))
+//@   ensures specHashComp(st, a) == specHashComp(st, b)
+func lemmaHashCompEq(st int, a, b Component, st2 int) {
+	lemmaHashFoldEq(st2, a.Val, b.Val, len(a.Val))
+}
+
+// C14 (a), on states: names that agree on their first k components reach the same hasher state after k components.
+//
+//@ func lemmaHashNameEqPrefix
+//@   opaque specHashU64
+//@   requires 0 <= k && k <= len(a) && k <= len(b) && specEqPrefix(a, b, k)
+//@   decreases k
+//@   ensures specHashName(a, k) == specHashName(b, k)
+//@   assert before lemmaHashNameEqPrefix@1 uses lemmaHashCompEq(specHashName(a, k-1), a[k-1], b[k-1], specHashU64(specHashU64(specHashName(a, k-1), uint64(a[k-1].Typ)), uint64(len(a[k-1].Val)))) specHashComp(specHashName(a, k-1), a[k-1]) == specHashComp(specHashName(a, k-1), b[k-1])
+func lemmaHashNameEqPrefix(a, b Name, k int) {
+	if k <= 0 {
+		return
+	}
+	lemmaHashNameEqPrefix(a, b, k-1)
+}
+
+// ---------------------------------------------------------------------------------------
+// The clauses of the property, as executable lemmas over the REAL methods (verified in the view "content").
+// ---------------------------------------------------------------------------------------
+
+// "equal names hash equally"
+//
+//@ func lemmaEqualNamesHashEqually
+//@   view content
+//@   opaque specHashU64
+//@   ensures result
+func lemmaEqualNamesHashEqually(a, b Name) bool {
+	if !a.Equal(b) {
+		return true
+	}
+	lemmaHashNameEqPrefix(a, b, len(a))
+	return a.Hash() == b.Hash()
+}
+
+// "the i-th prefix hash equals the hash of the i-component prefix", for every i in 0..len(n) (both ends included)
+//
+//@ func lemmaPrefixHashIsHashOfPrefix
+//@   view content
+//@   opaque specHashU64
+//@   requires 0 <= i && i <= len(n)
+//@   ensures result
+func lemmaPrefixHashIsHashOfPrefix(n Name, i int) bool {
+	lemmaHashNameEqPrefix(n[:i], n, i)
+	return n.PrefixHash()[i] == n[:i].Hash()
+}
+
+// "the prefix relation and the hashes agree": the hash of a prefix of b is the corresponding entry of b's prefix hashes
+//
+//@ func lemmaPrefixHashOfPrefixName
+//@   view content
+//@   opaque specHashU64
+//@   ensures result
+func lemmaPrefixHashOfPrefixName(a, b Name) bool {
+	if !a.IsPrefix(b) {
+		return true
+	}
+	lemmaHashNameEqPrefix(a, b, len(a))
+	return a.Hash() == b.PrefixHash()[len(a)]
+}
+
+// equal components hash equally
+//
+//@ func lemmaEqualComponentsHashEqually
+//@   view content
+//@   opaque specHashU64
+//@   assert before Hash@1 uses lemmaHashCompEq(SpecHashInit(), a, b, specHashU64(specHashU64(SpecHashInit(), uint64(a.Typ)), uint64(len(a.Val)))) specHashComp(SpecHashInit(), a) == specHashComp(SpecHashInit(), b)
+//@   ensures result
+func lemmaEqualComponentsHashEqually(a, b Component) bool {
+	if !a.Equal(b) {
+		return true
+	}
+	return a.Hash() == b.Hash()
+}
